@@ -364,6 +364,18 @@ def ownReq (st : St) (args : List String) : St × String :=
   | ["own.graph", g], _ => match n g with
     | some g => let o := (st.own.setSlot g []).settle; ({ st with own := o }, s!"rel={showKeys (sortNat o.released)}")
     | none => (st, "bad-op")
+  | ["own.dup", g, k, tmp, id], _ => match n g, n k, n tmp, n id with
+    -- a second node with a present key is refused: the original stays, the refused node is released at once
+    | some g, some k, some tmp, some id =>
+      if !((st.own.slot g).contains k) then (st, "skip") else
+      let sel : S → Nat → List (Nat × Nat) := if st.directed then outAdj else unAdj
+      match st.own.step sel (.new tmp id) with
+      | none => (st, "refused")
+      | some o1 =>
+        match o1.step sel (.drop tmp) with
+        | none => (st, "refused")
+        | some o2 => ({ st with own := o2 }, s!"rel={showKeys (sortNat o2.released)}")
+    | _, _, _, _ => (st, "bad-op")
   | ["own.held", i], _ => match n i with
     | some i => (st, s!"held={showKeys (sortNat (st.own.slot i).eraseDups)}")
     | none => (st, "bad-op")
